@@ -165,3 +165,12 @@ def _lru_call(cache, fn, args, kwargs):
 
 def _is_plain(x):  # replaced by a native model: str-like / number / None / tuple of those
     raise NotImplementedError
+
+
+def _next_gen(it, default, has_default):
+    """next(generator[, default]): the loop is left after the first item, the generator stays suspended at its yield"""
+    for x in it:
+        return x
+    if has_default:
+        return default
+    raise StopIteration
